@@ -747,7 +747,7 @@ def main():
     if not args.only:
         shutil.rmtree(rd, ignore_errors=True)
     recs = []
-    with cf.ThreadPoolExecutor(max_workers=NCPU) as ex:
+    with cf.ThreadPoolExecutor(max_workers=min(NCPU, P.get("jobs") or NCPU)) as ex:  # jobs: cap for memory-hungry properties
         futs = {ex.submit(run_harness, pid, h, args.tier, args.keep): h for h in hs}
         for fu in cf.as_completed(futs):
             h = futs[fu]
